@@ -174,7 +174,7 @@ def relations(prop, tier, seed, t0, what, bounds_extra):
     budget = 150 if tier == "quick" else 2400
     res = R.run_pool(H.HNAME, H.chunks(prop, tier, n), budget, seed, tier,
                      extra=dict(sample_rate=0.1 if tier == "quick" else 0.03, chunk_time=120 if tier == "quick" else 300,
-                                max_slots=3 if tier == "quick" else 4, max_paths={"C18": 120, "C17": 150, "C19": 40}[prop] * (1 if tier == "quick" else 4)))
+                                max_slots=3 if tier == "quick" else 4, max_paths={"C18": 120, "C17": 150, "C19": 160}[prop] * (1 if tier == "quick" else 4)))
     agg = R.merge(res)
     bounds = dict(program_instances=n, generator="harness/families.py", **bounds_extra)
     return R.report(prop, H.HNAME, tier, seed, agg, t0, bounds, functions=PIPE_FUNCS, assumptions=[what])
